@@ -100,6 +100,10 @@ def normalise(t, depth=0):
 
 
 def _unsat(s, *facts):
+    import os
+    import time
+
+    t0 = time.time()
     s.push()
     try:
         s.add(*facts)
@@ -108,6 +112,10 @@ def _unsat(s, *facts):
         r = z3.unknown
     finally:
         s.pop()
+    if os.environ.get("SUMNF_TRACE") and time.time() - t0 > 1.0:
+        import sys
+
+        print(f"[sumnf] slow side query {time.time() - t0:.1f}s -> {r}: {' ; '.join(str(f)[:300] for f in facts)[:900]}", file=sys.stderr, flush=True)
     return r == z3.unsat
 
 
@@ -263,6 +271,13 @@ def _factors(t):
             coef = coef * x
         elif z3.is_app(x) and x.decl().kind() == z3.Z3_OP_TO_REAL and z3.is_int_value(x.arg(0)):
             coef = coef * x.arg(0)
+        elif z3.is_app(x) and x.decl().kind() == z3.Z3_OP_DIV and x.sort() == z3.RealSort():
+            walk(x.arg(0))  # a / b  =  a * (1 / b)   (z3's total division: identical terms, no side condition)
+            d = x.arg(1)
+            if z3.is_rational_value(d) and not z3.is_true(z3.simplify(d == 0)):
+                coef = coef / d
+            else:
+                fs.append(z3.RealVal(1) / d)
         else:
             fs.append(x)
 
@@ -285,6 +300,30 @@ def _sqrt_pairs(s, facts, fs):
                 if z3.is_app(b) and b.decl().name() == "sqrt" and (a.eq(b) or _unsat(s, *facts, a.arg(0) != b.arg(0))) and _unsat(s, *facts, a.arg(0) < 0):
                     x = a.arg(0)
                     out = [f for k_, f in enumerate(out) if k_ not in (i, j)] + [x]
+                    changed = True
+                    break
+            if changed:
+                break
+    return out
+
+
+def _is_recip(t):
+    return z3.is_app(t) and t.decl().kind() == z3.Z3_OP_DIV and z3.is_rational_value(t.arg(0)) and z3.is_true(z3.simplify(t.arg(0) == 1))
+
+
+def _div_pairs(s, facts, fs):
+    """y * (1 / y) -> 1  when y != 0 is provable"""
+    out = list(fs)
+    changed = True
+    while changed:
+        changed = False
+        for i, a in enumerate(out):
+            if not _is_recip(a):
+                continue
+            y = a.arg(1)
+            for j, b in enumerate(out):
+                if j != i and b.sort() == y.sort() and (b.eq(y) or _unsat(s, *facts, b != y)) and _unsat(s, *facts, y == 0):
+                    out = [f for k_, f in enumerate(out) if k_ not in (i, j)]
                     changed = True
                     break
             if changed:
@@ -318,6 +357,8 @@ def cancels(s, facts, m1, m2) -> bool:
     c2, f2 = _factors(z3.simplify(m2))
     if any(z3.is_app(f) and f.decl().name() == "sqrt" for f in f1 + f2):
         f1, f2 = _sqrt_pairs(s, facts, f1), _sqrt_pairs(s, facts, f2)
+    if any(_is_recip(f) for f in f1 + f2):
+        f1, f2 = _div_pairs(s, facts, f1), _div_pairs(s, facts, f2)
     if len(f1) == len(f2) and z3.is_true(z3.simplify(c1 + c2 == 0)):
         s.push()
         s.add(*facts)
